@@ -47,6 +47,7 @@ type Frame struct {
 	econd   map[[2]int]string
 	hdrDec  map[*ssa.BasicBlock]string
 	hdrEnv  map[*ssa.BasicBlock]map[string]*Val
+	hdrAuto map[*ssa.BasicBlock][]string
 }
 
 func isBackEdge(from, to *ssa.BasicBlock) bool { return to.Dominates(from) }
@@ -140,7 +141,7 @@ func (x *VC) runFunc(fn *ssa.Function, args []*Val, binds []*Val, st *State, rea
 	}
 	fr := &Frame{x: x, fn: fn, vals: map[ssa.Value]*Val{}, depth: depth, top: top, binds: binds, params: args,
 		reach: map[*ssa.BasicBlock]string{}, out: map[*ssa.BasicBlock]*State{}, econd: map[[2]int]string{},
-		hdrDec: map[*ssa.BasicBlock]string{}, hdrEnv: map[*ssa.BasicBlock]map[string]*Val{}}
+		hdrDec: map[*ssa.BasicBlock]string{}, hdrEnv: map[*ssa.BasicBlock]map[string]*Val{}, hdrAuto: map[*ssa.BasicBlock][]string{}}
 	fr.headers, fr.loopOrd = loopHeaders(fn)
 	fr.entrySt = st.clone()
 	for i, p := range fn.Params {
@@ -577,8 +578,14 @@ func (x *VC) allocRef(st *State, reach, hint string, t types.Type) string {
 	cur := x.get(st, al)
 	x.fact("(> "+r+" 0)")
 	x.fact(sNot(sSel(cur, r)))
-	x.fact(sEq("(dtype "+r+")", x.tag(t)))
-	x.fact("(ptrtag "+x.tag(t)+")")
+	if _, isI := t.Underlying().(*types.Interface); isI {
+		// a fresh object behind an interface: its dynamic type is one of the implementers
+		x.typeFacts(&Val{K: KScalar, T: r, S: "Int", GT: t}, nil)
+		x.fact("(ptrtag (dtype " + r + "))")
+	} else {
+		x.fact(sEq("(dtype "+r+")", x.tag(t)))
+		x.fact("(ptrtag " + x.tag(t) + ")")
+	}
 	x.set(st, al, sStore(cur, r, "true"))
 	return r
 }
